@@ -34,7 +34,7 @@ def run(tier, seed):
         "a generator expression consumed by *args is the sequence it yields; an element that raises makes the call raise (first such element)",
     ]
     res.assumptions = ["wires are Node or OutPort values: builder objects also satisfy the Wire protocol (through ToNode) and may be stored in the table, but the table operations never look inside a wire, so the restriction only narrows the type of the stored values", "TrackedDfg.add / set_indexed_outputs are verified under the precondition that every integer argument is tracked; the complementary case is tracked_wire's IndexError (proved) propagating out of the argument generator"]
-    standard_flow(res, FILES, TARGETS, None, bounded_modules=[("bounded.c15", 300, 1200)])
+    standard_flow(res, FILES, TARGETS, None, bounded_modules=[("bounded.c15", 900, 1200)])
     for g in ground():
         res.ground.append(g)
         if not g["ok"]:
